@@ -357,6 +357,10 @@ func (w *World) checkConfirmations(n *Node, prev, cur *Snap, op OpInfo) {
 			if ev.CheckpointOverdrawn {
 				sig = "confirmed-overdraft/issuer-overdrawn-in-checkpoint"
 			}
+			if op.Kind == "propose" && op.Created != nil && !ev.CheckpointOverdrawn && (op.Created.LeftParentHash == h || op.Created.RightParentHash == h) {
+				// C09: "a vertex created by a node references only tips that were valid at that moment"
+				w.Violate("C09", "created-on-invalid-tip", fmt.Sprintf("node %s: the vertex %s it created references tip %s, a transfer that overdraws its issuer in its own history", n.Name, Hex(op.Created.Hash), Hex(h)))
+			}
 			w.Violate("C01", sig, fmt.Sprintf("node %s: vertex %s (%s -> %s, %s, sealed by %s) became confirmed although in its own history the issuer received %s and spent %s before it (short by %s)",
 				n.Name, Hex(h), w.NameOf(v.Transaction.IssuerAddress), w.NameOf(v.Transaction.ReceiverAddress), MelStr(v.Transaction.Spice), w.NameOf(v.SignerPublicAddress),
 				ev.In, ev.Out, new(big.Int).Sub(new(big.Int).Add(ev.Out, ev.Amount), ev.In))+w.checkpointNote(cur, v.Transaction.IssuerAddress))
